@@ -6,6 +6,7 @@ from ..ref import adsb as radsb
 from ..ref import bits
 
 LEVEL = "exploration"
+BRANCH_TARGETS = ['pyModeS.decoder.bds.bds61:is_emergency', 'pyModeS.decoder.bds.bds62:selected_altitude', 'pyModeS.decoder.bds.bds62:target_altitude', 'pyModeS.decoder.bds.bds62:target_angle', 'pyModeS.decoder.bds.bds62:selected_heading', 'pyModeS.decoder.bds.bds62:tcas_operational', 'pyModeS.decoder.adsb:nuc_p', 'pyModeS.decoder.adsb:nic_v1', 'pyModeS.decoder.adsb:nic_v2', 'pyModeS.decoder.adsb:nac_p', 'pyModeS.decoder.adsb:sil']
 TECHNIQUE = 'runtime monitoring: DO-260B ME builders (TC19/28/29 subtype 0+1/31) as oracle, exhaustive per-field sweeps, totality/monotonicity/domain monitors on look-ups'
 LEVEL_TEXT = 'Every field value executed; look-up *values* are not compared with the standard (no trusted transcription offline) - structure only.'
 EXHAUSTIVE = True
